@@ -402,6 +402,26 @@ def opOpt (st : St α) (id op : String) : P (St α × List String) := do
               [s!"{id} samples {r.samples.length} {rs (r.samples.flatMap sampleFlat)}",
                s!"{id} sampleseg {" ".intercalate (r.samples.map (fun s => toString s.seg))}"] else []
           return (st, base ++ smp)
+  | "opt_snap" =>
+      -- slot ns mode <arguments of opt_eval>: the evaluation of `slot`, during which a copy of the object is stored in `ns`
+      -- (value semantics: the copy has the configuration of the source; an evaluation does not change a configuration)
+      let slot ← pNat; let ns ← pNat; let _mode ← pNat
+      let recS ← pNat; let _ws ← pInt; let nx ← pNat; let x : List α ← pNums nx
+      let cs : CostSpec α ← pCostSpec
+      match getSlot st.opt slot with
+      | none => return (st, [s!"{id} noslot"])
+      | some o =>
+          let c := o.cfg
+          let r := evaluate c x (cs.costs o.dim)
+          let base := [s!"{id} cost {rs [r.cost]}", s!"{id} grad {rs r.grad}",
+                       s!"{id} times {rs r.decoded.times}", s!"{id} wps {rrows r.decoded.waypoints}",
+                       s!"{id} bc {rs (bcFlat r.decoded.bc)}",
+                       s!"{id} coeffs {rblk r.spline.coeffs}",
+                       s!"{id} terms {rs [r.timeCost, r.wpCost, sum r.segCosts, r.energy]}"]
+          let smp := if recS == 1 then
+              [s!"{id} samples {r.samples.length} {rs (r.samples.flatMap sampleFlat)}",
+               s!"{id} sampleseg {" ".intercalate (r.samples.map (fun s => toString s.seg))}"] else []
+          return ({ st with opt := putSlot st.opt ns o }, base ++ smp)
   | "opt_check" =>
       -- slot ws nx x… costspec eps tol
       let slot ← pNat; let _ws ← pInt; let nx ← pNat; let x : List α ← pNums nx
